@@ -615,3 +615,210 @@ Proof.
   - (* 7 *) reflexivity.
   - (* 8 *) fail_case.
 Qed.
+
+(* ================= equality ================= *)
+
+Lemma fn_eqb_refl f : fn_eqb f f = true.
+Proof. apply fn_eqb_iff. reflexivity. Qed.
+
+Lemma vp_eq_refl v : vp_eq v v = Ok true.
+Proof.
+  destruct v as [r [s|] [f|]]; unfold vp_eq; cbn [vp_req vp_step vp_fn];
+    rewrite reqid_eqb_refl, ?pfe_eqb_refl, ?fn_eqb_refl; reflexivity.
+Qed.
+
+(* whole-object equality of verification parameters is equality of request ID bits, step and notice *)
+Theorem vp_eq_true_iff a b : reqid_valid (vp_req a) -> reqid_valid (vp_req b) ->
+  (vp_eq a b = Ok true <-> a = b).
+Proof.
+  intros Va Vb. split; [|intros ->; apply vp_eq_refl].
+  destruct a as [ra sa fa], b as [rb sb fb]; unfold vp_eq; cbn [vp_req vp_step vp_fn] in *.
+  destruct (reqid_eqb ra rb) eqn:E; cbn [negb]; [|discriminate].
+  apply (proj1 (reqid_eq_iff ra rb Va Vb)) in E. subst rb.
+  destruct sa as [x|], sb as [y|]; cbn [bind]; try discriminate.
+  - destruct (pfe_eqb x y) eqn:Ep; cbn [negb]; [|discriminate]. apply pfe_eqb_iff in Ep. subst y.
+    destruct fa as [p|], fb as [q|]; try discriminate; [|reflexivity].
+    intros [= Ef]. apply fn_eqb_iff in Ef. subst q. reflexivity.
+  - destruct fa as [p|], fb as [q|]; try discriminate; [|reflexivity].
+    intros [= Ef]. apply fn_eqb_iff in Ef. subst q. reflexivity.
+Qed.
+
+Lemma tm_eqb_mk service k apid seq msgcnt ref dest version stamp src c1 c2 :
+  tm_args_valid service k apid seq msgcnt ref dest version stamp src ->
+  tm_eqb (mk_tm service k apid seq msgcnt ref dest version stamp src c1)
+         (mk_tm service k apid seq msgcnt ref dest version stamp src c2) = true.
+Proof.
+  intros V. pose proof (tm_hdr_valid _ _ _ _ _ _ _ _ _ _ V) as HV.
+  unfold tm_args_valid in V. destruct V as (Hs & Hk & Ha & Hq & Hm & Hr & Hd & Hv & Ws & Wd & L).
+  unfold tm_eqb, mk_tm, sph_eqb, tmsec_eqb; cbn [tm_sph tm_sec tm_src].
+  rewrite sph_pack_layout by exact HV. rewrite tmsec_pack_layout by assumption.
+  rewrite !bytes_eqb_refl. reflexivity.
+Qed.
+
+(* ================= the round trip ================= *)
+
+(* Build a report for a telecommand, pack it, decode it with the widths it was built with:
+   the constructor accepts; the packed octets are the layout (request ID ++ step ++ code ++ data
+   inside a service-1 telemetry packet); decoding returns the same request ID, step ID, error
+   code and failure data; the decoded report re-packs identically and compares equal to the
+   original (both ways); trailing octets after the packet are not read. *)
+Theorem srv1_unpack_pack apid k seq version ref dest stamp h step fail cfg rest :
+  1 <= k <= 8 -> srv1_args_valid apid k seq version ref dest stamp h step fail ->
+  srv1_shape_ok k (has step) (has fail) -> cfg_matches cfg step fail -> up_ts_len cfg = len stamp ->
+  let src := srv1_src_layout h step fail in
+  let octets := srv1_layout apid k seq version ref dest stamp h step fail in
+  let s := {| s1_tm := mk_tm 1 k apid seq 0 ref dest version stamp src None; s1_vp := mk_vp h step fail |} in
+  let u := {| s1_tm := mk_tm 1 k apid seq 0 ref dest version stamp src
+                             (Some (crc_octets (tm_body 1 k apid seq 0 ref dest version stamp src)));
+              s1_vp := mk_vp h step fail |} in
+  srv1_new apid k stamp (Some (mk_vp h step fail)) seq version ref dest = Ok s /\
+  srv1_pack s = Ok (octets, u) /\
+  srv1_unpack (octets ++ rest) cfg = Ok u /\
+  srv1_pack u = Ok (octets, u) /\
+  srv1_eq u s = Ok true /\ srv1_eq s u = Ok true.
+Proof.
+  intros K A Sh CM TS src octets s u. pose proof A as (V & HV & SF & FF).
+  split; [apply srv1_new_spec; assumption|].
+  split; [apply (srv1_pack_layout apid k seq version ref dest stamp h step fail None A)|].
+  split.
+  - unfold srv1_unpack. rewrite TS. unfold octets, srv1_layout.
+    rewrite s1_tm_unpack_layout_app by exact V. cbn [bind].
+    apply unpack_raw_tm_layout with (k := k); try assumption; reflexivity.
+  - split; [apply (srv1_pack_layout apid k seq version ref dest stamp h step fail _ A)|].
+    unfold srv1_eq, s, u; cbn [s1_tm s1_vp]. rewrite !tm_eqb_mk by exact V.
+    rewrite vp_eq_refl. split; reflexivity.
+Qed.
+
+(* the accessors of the decoded report *)
+Theorem srv1_decoded_accessors apid k seq version ref dest stamp h step fail crc :
+  srv1_shape_ok k (has step) (has fail) ->
+  let u := {| s1_tm := mk_tm 1 k apid seq 0 ref dest version stamp (srv1_src_layout h step fail) crc;
+              s1_vp := mk_vp h step fail |} in
+  vp_req (s1_vp u) = reqid_from_sph h /\
+  vp_step (s1_vp u) = match step with None => None | Some (w, v) => Some (mk_pfe w v) end /\
+  srv1_error_code u = Ok (match fail with None => None | Some (w, c, _) => Some (mk_pfe w c) end) /\
+  match vp_fn (s1_vp u), fail with
+  | None, None => True | Some f, Some (_, _, d) => fn_data f = d | _, _ => False end.
+Proof.
+  intros [Sf Ss] u. split; [reflexivity|]. split; [reflexivity|].
+  unfold srv1_error_code, srv1_has_failure_notice, srv1_subservice, u; cbn [s1_tm s1_vp mk_tm tm_sec tms_subservice mk_vp vp_fn].
+  replace (k mod 2 =? 0) with (Z.even k) by (rewrite Zmod_even; destruct (Z.even k); reflexivity).
+  destruct fail as [[[we c] d]|]; cbn [has] in Sf; rewrite <- Sf; split; reflexivity.
+Qed.
+
+(* ================= C10: total decoding ================= *)
+
+Lemma reqid_unpack_total_any d : ok_or_documented (reqid_unpack d).
+Proof.
+  unfold reqid_unpack. destruct (len d <? 4) eqn:E; [reflexivity|].
+  rewrite !struct_unpack_ok by (rewrite slice_length by lia; reflexivity). cbn [bind].
+  rewrite pid_from_raw_spec. cbn [bind].
+  destruct (psc_from_raw_spec (be_decode (slice d 2 4))) as [A B].
+  destruct (Z_le_dec 0 (be_decode (slice d 2 4))), (Z_lt_dec (be_decode (slice d 2 4)) 65536);
+    try (rewrite B by lia; reflexivity).
+  rewrite A by lia. exact I.
+Qed.
+
+Lemma bind_total {A B} (r : res A) (f : A -> res B) :
+  ok_or_documented r -> (forall a, ok_or_documented (f a)) -> ok_or_documented (bind r f).
+Proof. intros Hr Hf. destruct r; cbn [bind]; [apply Hf|exact Hr]. Qed.
+
+Lemma unpack_failure_total s cfg : ok_or_documented (unpack_failure_verification s cfg).
+Proof.
+  unfold unpack_failure_verification. apply bind_total.
+  - destruct (srv1_subservice s =? 6); [exact I|]. destruct (negb _); [reflexivity|exact I].
+  - intros e. destruct (len (tm_src (s1_tm s)) <? e); [reflexivity|].
+    apply bind_total.
+    + destruct (srv1_is_step_reply s); [|exact I]. apply bind_total; [apply pfe_unpack_total|]. intros; exact I.
+    + intros [s1 idx]. apply bind_total; [apply fn_unpack_total|]. intros; exact I.
+Qed.
+
+Lemma unpack_success_total s cfg : ok_or_documented (unpack_success_verification s cfg).
+Proof.
+  unfold unpack_success_verification. destruct (srv1_subservice s =? SUB_STEP_OK).
+  - apply bind_total; [apply pfe_unpack_total|]. intros; exact I.
+  - destruct (negb _); [reflexivity|exact I].
+Qed.
+
+(* every telemetry object, every source data, every parameter triple: a report or a
+   documented error (ValueError family), never IndexError / struct.error / ... *)
+Theorem unpack_raw_tm_total s cfg : ok_or_documented (unpack_raw_tm s cfg).
+Proof.
+  unfold unpack_raw_tm. destruct (len (tm_src (s1_tm s)) <? 4); [reflexivity|].
+  apply bind_total; [apply reqid_unpack_total_any|]. intros r.
+  destruct (_ =? 0); [apply unpack_failure_total|apply unpack_success_total].
+Qed.
+
+Theorem srv1_from_tm_total t cfg : ok_or_documented (srv1_from_tm t cfg).
+Proof. apply unpack_raw_tm_total. Qed.
+
+(* Service1Tm.unpack adds nothing undocumented to PusTm.unpack *)
+Theorem srv1_unpack_total d cfg :
+  ok_or_documented (tm_unpack d (up_ts_len cfg)) -> ok_or_documented (srv1_unpack d cfg).
+Proof. intros H. unfold srv1_unpack. apply bind_total; [exact H|]. intros; apply unpack_raw_tm_total. Qed.
+
+(* C09 at the wrapper: nothing beyond what PusTm.unpack reads is read *)
+Theorem srv1_no_overread d s cfg :
+  tm_unpack (d ++ s) (up_ts_len cfg) = tm_unpack d (up_ts_len cfg) ->
+  srv1_unpack (d ++ s) cfg = srv1_unpack d cfg.
+Proof. intros H. unfold srv1_unpack. rewrite H. reflexivity. Qed.
+
+(* source data shorter than the request ID is refused with the documented too-short error *)
+Theorem unpack_raw_tm_short s cfg : len (tm_src (s1_tm s)) < 4 -> unpack_raw_tm s cfg = Err ETooShort.
+Proof. intros H. unfold unpack_raw_tm. destruct (_ <? 4) eqn:E; [reflexivity|lia]. Qed.
+
+Lemma len_slice_from (d : bytes) i : 0 <= i -> len (slice_from d i) = Z.max 0 (len d - i).
+Proof. intros H. unfold slice_from, len. rewrite skipn_length. lia. Qed.
+
+Lemma len_slice_le (d : bytes) i j : 0 <= i -> len (slice d i j) <= Z.max 0 (len d - i).
+Proof. intros H. unfold slice, len. rewrite firstn_length, skipn_length. lia. Qed.
+
+(* source data that holds the request ID but is too short for the step ID / failure code of the
+   report's subservice is refused with the documented too-short error, for all valid widths *)
+Theorem unpack_raw_tm_short_params t vp0 k cfg :
+  1 <= k <= 8 -> enum_width_ok (up_step cfg) -> enum_width_ok (up_err cfg) ->
+  wf_bytes (tm_src t) -> tms_subservice (tm_sec t) = k ->
+  len (tm_src t) < 4 + (if (k =? 5) || (k =? 6) then up_step cfg else 0)
+                     + (if Z.even k then up_err cfg else 0) ->
+  unpack_raw_tm {| s1_tm := t; s1_vp := vp0 |} cfg = Err ETooShort.
+Proof.
+  intros K Ws We Wf Hk L.
+  pose proof (enum_width_pos _ Ws) as Ps. pose proof (enum_width_pos _ We) as Pe.
+  destruct (Z_lt_dec (len (tm_src t)) 4) as [L4|L4]; [apply unpack_raw_tm_short; exact L4|].
+  unfold unpack_raw_tm; cbn [s1_tm s1_vp].
+  destruct (len (tm_src t) <? 4) eqn:E; [lia|].
+  destruct (reqid_pack_unpack (slice (tm_src t) 0 4)) as (r & -> & _).
+  { apply wf_bytes_slice, Wf. } { rewrite slice_length by lia. reflexivity. }
+  cbn [bind]. unfold set_req, srv1_subservice; cbn [s1_tm s1_vp]. rewrite Hk.
+  unfold unpack_failure_verification, unpack_success_verification, srv1_is_step_reply, srv1_subservice,
+    set_step, set_fn; cbn [s1_tm s1_vp vp_req vp_step vp_fn]. rewrite Hk.
+  destruct (k_cases k K) as [->|[->|[->|[->|[->|[->|[->| ->]]]]]]]; cbn [Z.even orb Z.eqb Pos.eqb] in L; try lia;
+    change (2 mod 2 =? 0) with true; change (4 mod 2 =? 0) with true; change (5 mod 2 =? 0) with false;
+    change (6 mod 2 =? 0) with true; change (8 mod 2 =? 0) with true; cbv iota; eval_eqb; cbn [negb orb]; cbv iota; cbn [bind].
+  - destruct (_ <? up_err cfg); [reflexivity|].
+    rewrite fn_unpack_short; [reflexivity|assumption|rewrite len_slice_from by lia; lia].
+  - destruct (_ <? up_err cfg); [reflexivity|].
+    rewrite fn_unpack_short; [reflexivity|assumption|rewrite len_slice_from by lia; lia].
+  - rewrite pfe_unpack_short; [reflexivity|assumption|].
+    pose proof (len_slice_le (tm_src t) 4 (4 + up_step cfg)). lia.
+  - destruct (_ <? up_err cfg + up_step cfg); [reflexivity|].
+    destruct (Z_lt_dec (len (tm_src t) - 4) (up_step cfg)).
+    + rewrite pfe_unpack_short; [reflexivity|assumption|rewrite len_slice_from by lia; lia].
+    + rewrite pfe_unpack_spec by (assumption || rewrite len_slice_from by lia; lia). cbn [bind].
+      rewrite fn_unpack_short; [reflexivity|assumption|rewrite len_slice_from by lia; lia].
+  - destruct (_ <? up_err cfg); [reflexivity|].
+    rewrite fn_unpack_short; [reflexivity|assumption|rewrite len_slice_from by lia; lia].
+Qed.
+
+(* non-vacuity: a step-failure report with 2-octet step ID, 4-octet code and failure data *)
+Definition ex_h : sph := {| ver := 5; ptype := 1; shf := 1; apid := 2047; sflags := 3; scount := 16383; dlen := 0 |}.
+Example srv1_args_valid_ex :
+  srv1_args_valid 2047 6 16383 7 15 65535 [1; 2; 3] ex_h (Some (2, 65535)) (Some (4, 4294967295, [9; 8; 7])) /\
+  srv1_shape_ok 6 (has (Some (2, 65535))) (has (Some (4, 4294967295, [9; 8; 7]))) /\
+  cfg_matches {| up_ts_len := 3; up_step := 2; up_err := 4 |} (Some (2, 65535)) (Some (4, 4294967295, [9; 8; 7])).
+Proof.
+  unfold srv1_args_valid, tm_args_valid, srv1_shape_ok, cfg_matches, step_fits, fail_fits, enum_fits, enum_width_ok, sph_valid, ex_h.
+  cbn [SpacePacket.ver ptype shf SpacePacket.apid sflags scount dlen has up_step up_err].
+  repeat split; try lia; try reflexivity; try (cbv; intuition congruence);
+    try (repeat (apply Forall_cons; [cbv; intuition congruence|]); apply Forall_nil).
+Qed.
